@@ -527,6 +527,7 @@ def main():
     mods = dict(srv=srv, bus=bus, buf=buf, nod=nod)
     wire = Wire(bm.main)
     servers = {}
+    real_addr = {}
     out = []
     for ci, case in enumerate(inp['cases']):
         c = case['cfg']
@@ -540,6 +541,11 @@ def main():
             o.initial_node_id = c['initnode']
             s = srv.Server('c17_%d' % len(servers), nad.NetAddr('127.0.0.1', 57400 + len(servers)), o)
             servers[key] = s
+        # histories are independent: if an earlier one left the server's address replaced (a defect the spec reports
+        # there), this one starts from the real address again
+        if key not in real_addr:
+            real_addr[key] = s.addr
+        s._addr = real_addr[key]
         s._set_client_id(c['client'])           # fresh allocators, node ids restart
         s._node_allocator._temp = c.get('nodestart', c['initnode'])
         srv.Server.default = s
